@@ -305,6 +305,9 @@ class WebSocket:
                 )
             self.connected = True
         except:
+            # a failed handshake leaves the object unconnected, also when it
+            # was still flagged as connected from an earlier connection
+            self.connected = False
             if self.sock:
                 self.sock.close()
                 self.sock = None
